@@ -336,9 +336,9 @@ def discharge(ob, axioms, timeout_s=20.0, want_smt2=False) -> Verdict:
         s.add(*formulas)
         smt2 = s.to_smt2()
     nl = is_nonlinear(formulas)
-    order = ["z3-nlsat-ack", "z3-default", "z3-smt-ack"] if nl else ["z3-default", "z3-nlsat-ack"]
+    order = ["z3-default", "z3-nlsat-ack", "z3-default", "z3-smt-ack"] if nl else ["z3-default", "z3-nlsat-ack"]
     budget = timeout_s * 1000
-    shares = [0.45, 0.35, 0.2] if nl else [0.7, 0.3]
+    shares = [0.08, 0.42, 0.35, 0.15] if nl else [0.7, 0.3]
     total = 0.0
     last_reason = ""
     for backend, share in zip(order, shares):
